@@ -4,6 +4,7 @@
    source by gosync (gen/TabSync.v). *)
 From Coq Require Import String.
 From Verif Require Import Prelude GFM GFP PolyP RSP TabSync ConcM ConcP.
+From Verif Require Import BitListM QRSpec QRMBits QRMBlocks QRM QRP3Pad QRProps ConcQrP.
 Import List ListNotations.
 Notation length := List.length.
 
@@ -90,6 +91,22 @@ Theorem C16_alphanumeric_consumer : forall idxs len,
   (length (alpha_sends idxs) <= alpha_recv_count len (alpha_sends idxs))%nat.
 Proof. exact alpha_consumer_receives_all. Qed.
 Print Assumptions C16_alphanumeric_consumer.
+
+(* the IterateBytes -> splitToBlocks hand-over of every QR encode (any mode, any level, any
+   accepted content): the producer sends ceil(bits/8) bytes, splitToBlocks receives
+   totalDataBytes(version) of them; by the C01 bit-count theorem on the tables dumped from
+   /repo's current source these are equal, so by C16_counting_consumer the producer goroutine
+   returns and nothing is left unread. *)
+Theorem C16_qr_producer_always_finishes : forall m content level bits vi (vals : list Z),
+  (m = SByte -> Forall (fun c => 0 <= c < 256)%Z content) ->
+  encoder_of m content level = Ok (bits, vi) ->
+  Z.of_nat (length vals) = ((zlength bits + 7) / 8)%Z ->
+  let k := Z.to_nat (total_data_bytes vi) in
+  Z.of_nat (length vals) = total_data_bytes vi
+  /\ let s := chrun (length vals + k + 3) (chinit vals (CRecv k)) in
+     producer_finished s = true /\ ch_cons_done s = true /\ chstep s = None.
+Proof. exact qr_bytes_handover. Qed.
+Print Assumptions C16_qr_producer_always_finishes.
 
 (* non-vacuity: three goroutines asking for degrees 5, 2, 7 of GF(16) from a
    cold cache under a round-robin schedule all return, with the right results *)
